@@ -1,7 +1,8 @@
 /-
-  Engine `argval` (C16).  Op line: `<list> <list> [<list>] [tokens starting with '=' or '#' …]`
-  (cell syntax: see harness/argval.cpp).  Output:
-  `E <eq of every ordered pair> C <sign of cmp> I <iteration>;… M <avmessage bytes> …`
+  Engine `argval` (C16).  Op line: `<list> <list> [<list>] [tags starting with '=' …] [# …]`
+  (cell syntax and tags `=o1 =o2 =sg =uIJ =law =same01`: see harness/argval.cpp).  Output:
+  `E <eq of every ordered pair> C <sign of cmp; x = non-zero, sign withheld (=uIJ)> [L <law verdict on the raw signs>]
+   I <iteration>;… M <avmessage bytes | ~k = same bytes as list k, for a list with an array> …`
 -/
 import RtoscModel.ArgVal.Cmp
 import RtoscModel.ArgVal.Msg
@@ -116,20 +117,90 @@ def showMsg (l : List Cell) : String :=
     | .ok _ => "!undef"
     | .error e => showErr e
 
+/-- a list that is exactly one value (a scalar cell, or one array with its cells) -/
+def isSingle (l : List Cell) : Bool :=
+  match l with
+  | [] => false
+  | .rep _ _ :: _ => false
+  | .arr _ len :: _ => len + 1 == (l.length : Int)
+  | _ :: rest => rest.isEmpty
+
+def at2 (w : String) (i j : Nat) : String := s!"{w}{i}{j}"
+
+/-- the order laws (and, with `=same01`, compress-blindness) on the raw signs: the same check, in the
+    same order, as `law_verdict` of harness/argval.cpp -/
+def lawVerdict (n : Nat) (E C : Nat → Nat → Int) (same01 : Bool) : String :=
+  let idx := List.range n
+  let r1 : Option String := idx.findSome? fun i =>
+    if E i i ≠ 1 ∨ C i i ≠ 0 then some (at2 "refl" i i) else
+    idx.findSome? fun j =>
+      if C i j ≠ - C j i then some (at2 "antisym" i j)
+      else if (E i j == 1) != (C i j == 0) then some (at2 "eqcmp" i j) else none
+  match r1 with
+  | some s => s
+  | none =>
+  let r2 : Option String := idx.findSome? fun i => idx.findSome? fun j => idx.findSome? fun k =>
+    if C i j ≤ 0 ∧ C j k ≤ 0 then
+      if C i k > 0 then some (at2 "trans" i j ++ toString k)
+      else if (C i j < 0 ∨ C j k < 0) ∧ C i k = 0 then some (at2 "strict" i j ++ toString k) else none
+    else none
+  match r2 with
+  | some s => s
+  | none =>
+    if same01 && n ≥ 2 then
+      if E 0 1 ≠ 1 ∨ C 0 1 ≠ 0 then "same01" else
+      match idx.findSome? fun k =>
+        if E 0 k ≠ E 1 k ∨ E k 0 ≠ E k 1 ∨ C 0 k ≠ C 1 k ∨ C k 0 ≠ C k 1 then some (at2 "same" 0 k) else none with
+      | some s => s
+      | none => "ok"
+    else "ok"
+
+/-- tags behind the lists (see harness/argval.cpp): `=o1`/`=o2` only select the options pointer the
+    implementation is called with (the model is the comparison with tolerance 0.0 either way) -/
 def step (line : String) : String :=
-  let ws := (words line).takeWhile fun t => !(t.startsWith "=" || t.startsWith "#")
+  let all := words line
+  let ws := all.takeWhile fun t => !(t.startsWith "=" || t.startsWith "#")
+  let tags := (all.drop ws.length).takeWhile fun t => !t.startsWith "#"
   match ws.mapM parseList with
   | none => "bad-op"
   | some ls =>
     if ls.length < 1 ∨ ls.length > 3 then "bad-op" else
+    let n := ls.length
+    let sg := tags.contains "=sg"
+    let law := tags.contains "=law"
+    let same01 := tags.contains "=same01"
+    let hide (i j : Nat) : Bool :=
+      tags.contains s!"=u{i}{j}" || tags.contains s!"=u{j}{i}"
     let pairs := ls.flatMap fun x => ls.map fun y => (x, y)
-    let e := pairs.map fun (x, y) => showRes (fun (b : Bool) => if b then "1" else "0") (eq fuel x y x.length y.length)
-    let c := pairs.map fun (x, y) => showRes (fun (v : Int) => toString (Int.sign v)) (cmp fuel x y x.length y.length)
+    let er : List (Res Bool) := pairs.map fun (x, y) =>
+      if sg && isSingle x && isSingle y then eqSingle fuel x y else eq fuel x y x.length y.length
+    let cr : List (Res Int) := pairs.map fun (x, y) =>
+      (if sg && isSingle x && isSingle y then cmpSingle fuel x y else cmp fuel x y x.length y.length).map Int.sign
+    let e := er.map (showRes fun (b : Bool) => if b then "1" else "0")
+    let c := (List.range (n * n)).map fun p =>
+      match cr.getD p (.error .oob) with
+      | .ok v => if hide (p / n) (p % n) && v ≠ 0 then "x" else toString v
+      | .error err => showErr err
+    let verdict : String :=
+      if !law then "" else
+      let ev := er.mapM fun r => match r with | .ok b => some (if b then (1 : Int) else 0) | .error _ => none
+      let cv := cr.mapM fun r => match r with | .ok v => some v | .error _ => none
+      match ev, cv with
+      | some ev, some cv =>
+        " L " ++ lawVerdict n (fun i j => ev.getD (i * n + j) 0) (fun i j => cv.getD (i * n + j) 0) same01
+      | _, _ => " L err"
     let i := ls.map fun x => if hasInf x then "inf" else
       let s := showIter x x.length
       if s.isEmpty then "-" else s
-    let m := ls.map showMsg
-    "E " ++ " ".intercalate e ++ " C " ++ " ".intercalate c ++ " I " ++ ";".intercalate i ++ " M " ++ " ".intercalate m
+    let ms := ls.map showMsg
+    -- a list with an array: only "same bytes as list k of this line"
+    let m := (List.range n).map fun p =>
+      let mp := ms.getD p ""
+      let hasArr := (ls.getD p []).any fun cl => match cl with | .arr _ _ => true | _ => false
+      if !hasArr || mp == "inf" || mp == "null" then mp
+      else s!"~{(ms.findIdx? (· == mp)).getD p}"
+    "E " ++ " ".intercalate e ++ " C " ++ " ".intercalate c ++ verdict ++ " I " ++ ";".intercalate i
+      ++ " M " ++ " ".intercalate m
 
 def engine : Driver.Engine := Driver.stateless step
 end Driver.ArgvalEngine
